@@ -101,7 +101,7 @@ def _run_one(args):
             compile(_src, _rel, "exec")
     except SyntaxError as e:
         return (m["id"], "n/a", [], f"variant does not compile: {e}")
-    verdict, rep = analyse_variant(prop, ov)
+    verdict, rep = analyse_variant(prop, ov, inherited_known=(m.get("kind") == "twin"))
     if isinstance(rep, str):
         return (m["id"], verdict, [], rep)
     rules = sorted({i.rule for i in rep.instances if i.verdict == VIOLATION})
